@@ -40,7 +40,10 @@ def ops_strategy():
     stream = st.tuples(st.just("stream"), sref, which, rel, st.sampled_from([0, 1, 1, 10, 500, 1200]), st.booleans())
     reset = st.tuples(st.just("reset"), sref, which, rel)
     simple = st.sampled_from([("ack",), ("ack",), ("timer",), ("sut_open",), ("sut_write",), ("challenges", 40), ("challenges", 500), ("crypto_far",), ("crypto_grow",), ("crypto_beyond",), ("ncid_churn",), ("ncid_churn_quiet",), ("dup_last",), ("never_finished", 30)])
-    return st.lists(st.one_of(stream, stream, stream, reset, simple), min_size=2, max_size=16)
+    # an empty FIN at offset 0 fixes the final size at 0 (a falsy value): whatever follows on that stream exceeds it
+    fin0 = st.tuples(st.just("stream"), st.sampled_from(["p-bidi0", "p-bidi0", "p-bidi1", "p-uni0"]), st.just("stream"), st.just("zero"), st.just(0), st.just(True))
+    follow = st.tuples(st.just("stream"), st.sampled_from(["p-bidi0", "p-bidi0", "p-bidi1", "p-uni0"]), st.just("stream"), st.sampled_from(["small", "half", "lim"]), st.sampled_from([1, 10]), st.booleans())
+    return st.lists(st.one_of(stream, stream, stream, reset, simple, fin0, follow), min_size=2, max_size=16)
 
 
 class Credit:
